@@ -421,6 +421,8 @@ class ModelFS:
     @_ut
     def open_manifest(self, path, mode, **kw):
         assert 'encoding' in kw or 'b' in mode
+        if '\0' in path:
+            raise ValueError('embedded null byte')      # what the real open() does
         if 'r' in mode:
             self._tick('open', path)
             node = self.lookup(path)
